@@ -55,6 +55,7 @@ type Engine struct {
 	edgeCache    map[*ssa.Function][]*ssa.Function
 	callers      map[*ssa.Function][]callerSite
 	fieldWriters map[*types.Var]map[*ssa.Function]int
+	sentinels    map[*ssa.Global]int
 	astFuncs     map[*ssa.Function]*ast.FuncDecl
 }
 
